@@ -53,9 +53,13 @@ pub enum Op {
     View,
     ToOwned,
     IntoSingle,
+    /// not a linfa operation: shrink the owned arrays of the current dataset IN PLACE through its public fields
+    /// (`slice_axis_inplace` on records, targets, weights), dropping `head` leading and `tail` trailing samples, so that
+    /// every later operation sees owned arrays that are not fresh allocations (non-zero offset, spare capacity)
+    Shrink { head: u8, tail: u8 },
 }
 
-pub const N_KINDS: u8 = 15;
+pub const N_KINDS: u8 = 16;
 
 impl Op {
     /// Total decoding from small integers (shared by the proptest strategy and `case_from_bytes`).
@@ -99,7 +103,8 @@ impl Op {
             },
             12 => Op::View,
             13 => Op::ToOwned,
-            _ => Op::IntoSingle,
+            14 => Op::IntoSingle,
+            _ => Op::Shrink { head: a, tail: b },
         }
     }
 
@@ -120,6 +125,7 @@ impl Op {
             Op::View => "view",
             Op::ToOwned => "to_owned",
             Op::IntoSingle => "into_single_target",
+            Op::Shrink { .. } => "shrink_in_place",
         }
     }
 }
@@ -130,4 +136,11 @@ pub fn boot_rows(a: u8) -> usize {
 }
 pub fn boot_cols(b: u8) -> usize {
     1 + ((b as usize * 6) >> 8)
+}
+
+/// leading / trailing samples an in-place shrink drops from a dataset of n samples (small, never more than n in total)
+pub fn shrink_amounts(head: u8, tail: u8, n: usize) -> (usize, usize) {
+    let h = (head as usize % 3).min(n);
+    let t = (tail as usize % 3).min(n - h);
+    (h, t)
 }
